@@ -308,7 +308,12 @@ func GenCaseNoFit(r *Rng) (ECase, bool) {
 		o.Spec, o.Data = nf, EmitFile(nf)
 		var ops []EOp
 		if r.Chance(1, 3) {
-			ops = append(ops, GenRO(r, reg))
+			// a read-only visitor first - but not flatten, which empties the tree it walked
+			// (Flatten.Run sets Elements / Files / Sections of every listed node to nil), and not
+			// dump, which fails without a unique match
+			if ro := GenRO(r, reg); ro.RO != "flatten" && ro.RO != "dump" {
+				ops = append(ops, ro)
+			}
 		}
 		ops = append(ops, o)
 		return ECase{Img: img, Ops: ops, Reg: reg, Comp: RegionHasCompressed(reg)}, true
